@@ -8,6 +8,7 @@ Push-only / one-impact restitution: a free sphere penetrating the ground by a SY
   SYMBOLIC elasticity e in [0, 0.9]: after one step the sphere has not moved or accelerated into the ground, and rebounds with e*|v| up to the
   pipeline's stated margin.
 """
+import math
 import random
 from fractions import Fraction as F
 
@@ -26,14 +27,15 @@ from sx.fr import Fr
 from sx.solve import Ob
 
 
-def with_geoms(spec, collide):
+def with_geoms(spec, collide, margin=None, floor_z=-3.0):
+  """margin: MuJoCo's contact-detection margin on every geom; brax activates a contact at dist < 0, whatever the margin"""
   s2 = {k: v for k, v in spec.items()}
   s2['bodies'] = []
   for b in spec['bodies']:
     b2 = dict(b)
-    b2['geoms'] = [dict(g, contype=1 if collide else 0, conaffinity=1 if collide else 0) for g in b['geoms']]
+    b2['geoms'] = [dict(g, contype=1 if collide else 0, conaffinity=1 if collide else 0, margin=margin if collide else None) for g in b['geoms']]
     s2['bodies'].append(b2)
-  s2['world_geoms'] = [{'type': 'plane', 'size': (5, 5, 1), 'pos': (0, 0, -3), 'quat': (1, 0, 0, 0), 'name': 'floor'}]
+  s2['world_geoms'] = [{'type': 'plane', 'size': (5, 5, 1), 'pos': (0, 0, floor_z), 'quat': (1, 0, 0, 0), 'name': 'floor', 'margin': margin if collide else None}]
   return s2
 
 
@@ -48,6 +50,8 @@ def without_limits(spec):
 
 
 def run(ck, a):
+  from brax import contact as bcontact
+  from brax import kinematics
   from brax.generalized import pipeline as gp
   from brax.io import mjcf
   from brax.positional import pipeline as pp
@@ -55,8 +59,8 @@ def run(ck, a):
   thorough = ck.tier == 'thorough'
   rng = random.Random(900 + ck.seed)
   pipes = [('spring', sp), ('positional', pp), ('generalized', gp)]
-  ck.bounds = {'inert contacts / limits': 'free root + 1-2 hinge links, q Tier B incl. a concrete root position (strictly inside the ranges, 3 m above the ground), velocities on a symbolic line, one step',
-               'push-only / restitution': 'free sphere r=0.1 on a plane, depth d in [0.002,0.02], normal speed v in [-3,0], elasticity e in [0,0.9] all symbolic, one step, with and without gravity',
+  ck.bounds = {'inert contacts / limits': 'free root + 1-2 hinge links, geoms with a 5 m detection margin (contact candidates inside the margin but not touching), q Tier B incl. a concrete root position (strictly inside the ranges; ground 3 cm below the lowest geom for hinge-only models, 3 m for models with a slide), velocities on a symbolic line, one step',
+               'push-only / restitution / resting': 'free sphere r=0.1 on a plane at a SYMBOLIC horizontal position in [-10,10]^2 (gravity traces: push-only, resting) or at (6,-8) (no-gravity traces: restitution), depth d in [0.002,0.02], normal speed v in [-3,0], elasticity e in [0,0.9] all symbolic, one step, with and without gravity',
                'pipelines': 'spring, positional (core); generalized (extended where encodable)',
                'outside': 'the 3 s resting-height history and the drop-and-rebound trajectory (thousands of steps); boxes and capsules in push-only; float round-off'}
   ck.assumptions += ['reals for floats', 'one simulation step']
@@ -72,7 +76,22 @@ def run(ck, a):
           j['range'] = (-1.5, 1.5)
         elif j['type'] == 'slide':
           j['range'] = (0.2, 0.8)          # a slide range that excludes 0; the state below sits at 0.5
-    variants = {'contacts': (with_geoms(base, True), with_geoms(base, False)), 'limits': (with_geoms(base, False), without_limits(with_geoms(base, False)))}
+    # hinge-only models: the ground is raised to 3 cm below the lowest geom of the (concrete, Tier B) configuration -- separated, but close enough that an
+    # activation test other than "dist < 0" (margins, approach speed) would already respond to the velocities on the symbolic line
+    floor_z, qbase = -3.0, None
+    mg = 5.0 if words != ['hh'] else None
+    if not any('s' in w for w in words):
+      ctx_t = core.Ctx(fold=False)
+      q_t, _ = state_inputs(with_geoms(base, False), random.Random(5), ctx_t)
+      qbase = [0.3, -0.2, 0.5] + [float(c_) for c_ in q_t[3:7]]
+      for c_ in q_t[7:]:
+        sh_, ch_ = ctx_t.angle_points[str(c_)]
+        qbase.append(2.0 * math.atan2(float(sh_), float(ch_)))
+      s_t = mjcf.loads(models.to_xml(with_geoms(base, True, margin=mg)))
+      c_t = bcontact.get(s_t, kinematics.forward(s_t, jp.array(qbase), jp.zeros(s_t.qd_size()))[0])
+      floor_pairs = np.asarray(c_t.link_idx[0]) == -1
+      floor_z = -3.0 + float(np.asarray(c_t.dist)[floor_pairs].min()) - 0.03
+    variants = {'contacts': (with_geoms(base, True, margin=mg, floor_z=floor_z), with_geoms(base, False)), 'limits': (with_geoms(base, False), without_limits(with_geoms(base, False)))}
     for vname, (specA, specB) in variants.items():
       xa, xb = models.to_xml(specA), models.to_xml(specB)
       sa, sb = mjcf.loads(xa), mjcf.loads(xb)
@@ -117,7 +136,7 @@ def run(ck, a):
         ab = Abstractor(keep=30)
         side = []
         tag = '%s/%s/free+%s' % (vname, pname, '.'.join(words))
-        replay[tag] = (xa, xb, pname)
+        replay[tag] = (xa, xb, pname, qbase if vname == 'contacts' else None)
         names = ['x.pos', 'x.rot', 'xd.vel', 'xd.ang', 'q', 'qd']
         ndiff = 0
         for nm, u, v in zip(names, oa, ob_):
@@ -136,6 +155,52 @@ def run(ck, a):
     if words == ['h']:
       ck.samples.append({'model_with_contacts': models.to_xml(variants['contacts'][0])[:1500]})
 
+  # ---------------- generalized pipeline, unit level: the limit rows of the constraint solver vanish for EVERY q strictly inside the ranges
+  # (constraint.jac_limit is the only place the generalized pipeline reads the ranges; with zero rows the solve is the unconstrained one)
+  from brax.generalized import constraint as gconstraint
+  rng_u = random.Random(961)
+  unit_models = [('two free trees (f,1,1,f,1)', models.merge_specs([models.tree_model(rng_u, ['h', 'h'], free_root=True, ortho=True, limits_p=1.0, joint_props=True),
+                                                                     models.tree_model(rng_u, ['s'], free_root=True, ortho=True, limits_p=1.0, joint_props=True)])),
+                 ('world-attached stack + free tree (2,f,1)', models.merge_specs([models.tree_model(rng_u, [], free_root=False, root_word='hs', ortho=True, limits_p=1.0, joint_props=True),
+                                                                                  models.tree_model(rng_u, ['h'], free_root=True, ortho=True, limits_p=1.0, joint_props=True)]))]
+  for uname, uspec in unit_models:
+    uspec['custom'] = EXACT_INV
+    for b_ in uspec['bodies']:
+      for j_ in b_['joints']:
+        if j_['type'] != 'free' and j_.get('range') is None:
+          j_['range'] = (-0.7, 0.9)
+    uxml = models.to_xml(uspec)
+    usys = mjcf.loads(uxml)
+    import types      # jac_limit reads only state.q and state.qd: a bare namespace stands in for the generalized State (an eager gp.init costs ~30 s per model)
+    qs, qds = core.reals('uq', (usys.q_size(),)), core.reals('uqd', (usys.qd_size(),))
+    pre = []
+    qi_ = 0
+    for b_ in uspec['bodies']:
+      for j_ in b_['joints']:
+        if j_['type'] == 'free':
+          qi_ += 7
+        else:
+          pre += [qs[qi_] > F(repr(float(j_['range'][0]))), qs[qi_] < F(repr(float(j_['range'][1])))]
+          qi_ += 1
+    ctxu = core.Ctx(fold=False)
+    try:
+      (jac, diag, aref), cju = core.run(ctxu, lambda q_, qd_: gconstraint.jac_limit(usys, types.SimpleNamespace(q=q_, qd=qd_)), qs, qds)
+    except (core.SXUnsupported, ZeroDivisionError, ValueError, AssertionError) as e_:
+      ck.harness_error('generalized limit rows %s: %r' % (uname, e_))
+      continue
+    ck.traced('generalized.constraint.jac_limit', cju)
+    fru = Fr.for_ctx(ctxu)
+    sideu = [fru.formula(s_, _top=False) for s_ in ctxu.side] + pre
+    cells = list(np.asarray(jac, dtype=object).reshape(-1)) + list(np.asarray(diag, dtype=object).reshape(-1)) + list(np.asarray(aref, dtype=object).reshape(-1))
+    nzc = [c_ for c_ in cells if not (core.isc(c_) and c_ == 0)]
+    utag = 'limit-rows/' + uname
+    replay[utag] = (uxml, models.to_xml(without_limits(uspec)), 'generalized', None)
+    ck.add(Ob('inert-limits-unit/generalized/%s: limit rows (jac, diag, aref) vanish strictly inside the ranges' % uname, sideu,
+              z3.And([fru.formula(lift(c_) == 0) for c_ in nzc]) if nzc else True, timeout=60, meta={'tag': utag, 'unit': True}))
+    if uname.startswith('two'):
+      ck.add(Ob('twin/reach/' + utag, sideu, None, expect='sat', timeout=30))
+      ck.add(Ob('twin/limit-active-outside-range/' + utag, [fru.formula(s_, _top=False) for s_ in ctxu.side] + [z3.Not(z3.And([fru.formula(lift(c_) == 0) for c_ in nzc]))], None, expect='sat', timeout=30))
+
   # ---------------- push-only and one-impact restitution: free sphere on the ground
   r_ = F(1, 10)
   spec = {'bodies': [{'name': 'ball', 'parent': -1, 'pos': (0, 0, 0.1), 'quat': (1, 0, 0, 0), 'joints': [{'name': 'jf', 'type': 'free'}],
@@ -146,13 +211,15 @@ def run(ck, a):
   sys0 = mjcf.loads(xml)
   d, v, e = z3.Real('d'), z3.Real('v'), z3.Real('e')
   dom = [d >= F(2, 1000), d <= F(20, 1000), v <= 0, v >= -3, e >= 0, e <= F(9, 10)]
+  px, py = z3.Real('px'), z3.Real('py')       # the sphere touches the ground ANYWHERE within 10 m of the world origin (lever arms about the origin must not enter)
+  dom += [px >= -10, px <= 10, py >= -10, py <= 10]
   for pname, mod in pipes:
     if pname == 'generalized' and not thorough:
       continue
     for grav in (False, True):
       ctx = core.Ctx(fold=True, assume=dom)
       ctx.lemma_timeout = 1000
-      q = core.obj_array([0, 0, r_ - d, 1, 0, 0, 0])
+      q = core.obj_array([px if grav else F(6), py if grav else F(-8), r_ - d, 1, 0, 0, 0])      # restitution queries (no gravity) keep a concrete off-origin position: they are the slowest
       qd = core.obj_array([0, 0, v, 0, 0, 0])
       ea = np.empty((sys0.elasticity.shape[0],), dtype=object)
       for i in range(ea.shape[0]):
@@ -175,7 +242,7 @@ def run(ck, a):
       side = [fr.formula(s_, _top=False) for s_ in ctx.side] + dom
       dt = F(repr(float(sys0.opt.timestep)))
       tag = 'sphere/%s/%s' % (pname, 'gravity' if grav else 'no-gravity')
-      replay[tag] = (xml, None, pname)
+      replay[tag] = (xml, None, pname, None)
       is_core = pname != 'generalized'
       meta = {'tag': tag, 'grav': grav}
       # at rest (v = 0): never pulled in
@@ -183,6 +250,10 @@ def run(ck, a):
       gdt = F(-981, 100) * dt if grav else 0
       ck.add(Ob('push-only/%s: a resting penetrating sphere is not pulled in' % tag, side + rest,
                 z3.And(fr.formula(lift(vz2) >= gdt - F(1, 10**9)), fr.formula(lift(z2) - lift(z1) >= gdt * dt - F(1, 10**9))), timeout=120, core=is_core, meta=meta))
+      if grav and pname in ('spring', 'positional'):
+        # one-step necessary condition of the resting clause (rest within 2 mm of the analytic height): at rest, 2-20 mm inside the ground, under gravity,
+        # the contact wins over gravity -- the sphere ends the step higher than it started
+        ck.add(Ob('resting/%s: a resting sphere 2-20 mm inside the ground moves outward under gravity' % tag, side + rest, fr.formula(lift(z2) - lift(z1) > 0), timeout=120, core=is_core, meta=meta))
       if not grav and pname in ('spring', 'positional'):
         erp = F(repr(float(sys0.baumgarte_erp)))
         if pname == 'spring':
@@ -193,15 +264,20 @@ def run(ck, a):
           # positional: e at exact rational sample values (keeps each query to the two variables d, v), margin 1e-3 (1 + |v|)
           for ev in (F(0), F(1, 2), F(9, 10)):
             lo_, hi_ = -ev * v - F(1, 1000) * (1 - v), -ev * v + F(1, 1000) * (1 - v)
-            ck.add(Ob('restitution/%s/e=%s: post-impact normal speed == e*|v| within 1e-3(1+|v|)' % (tag, ev), side + [v <= -F(1, 10), e == ev],
-                      z3.And(fr.formula(lift(vz2) >= lo_), fr.formula(lift(vz2) <= hi_)), timeout=300, core=True, meta=meta))
+            # lower and upper bound as separate queries (nlsat run times on the conjunction vary by an order of magnitude)
+            ck.add(Ob('restitution/%s/e=%s: post-impact normal speed >= e*|v| - 1e-3(1+|v|)' % (tag, ev), side + [v <= -F(1, 10), e == ev], fr.formula(lift(vz2) >= lo_), timeout=300, core=True, meta=meta))
+            ck.add(Ob('restitution/%s/e=%s: post-impact normal speed <= e*|v| + 1e-3(1+|v|)' % (tag, ev), side + [v <= -F(1, 10), e == ev], fr.formula(lift(vz2) <= hi_), timeout=300, core=True, meta=meta))
       if not grav:
         ck.add(Ob('twin/reach/' + tag, side, None, expect='sat', timeout=60, core=is_core))
         ck.add(Ob('twin/pull-in-possible/' + tag, side + [fr.formula(lift(vz2) <= F(1, 100))], None, expect='sat', timeout=60, core=is_core))
 
+  def fv(x):
+    x = str(x).rstrip('?')
+    return float(F(x)) if '/' in x else float(x)
+
   def rep(ob):
     tag = ob.meta['tag']
-    xa, xb, pname = replay[tag]
+    xa, xb, pname, qb_ = replay[tag]
     mod = dict(pipes)[pname]
     r = np.random.RandomState(2)
     if xb is None:
@@ -210,13 +286,17 @@ def run(ck, a):
         for vv in (0.0, -0.1, -0.5, -1.0, -3.0):
           for ee in (0.0, 0.3, 0.6, 0.9):
             s2 = s.replace(elasticity=jp.full_like(s.elasticity, ee), gravity=jp.array([0, 0, -9.81 if ob.meta.get('grav') else 0.0]))
-            st = mod.init(s2, jp.array([0, 0, 0.1 - dd, 1, 0, 0, 0.]), jp.array([0, 0, vv, 0, 0, 0.]))
+            mx_, my_ = (fv(ob.model.get('px', 6.0)), fv(ob.model.get('py', -8.0))) if ob.model else (6.0, -8.0)
+            st = mod.init(s2, jp.array([mx_, my_, 0.1 - dd, 1, 0, 0, 0.]), jp.array([0, 0, vv, 0, 0, 0.]))
             o = mod.step(s2, st, jp.zeros(0))
             vz, dz = float(o.xd.vel[0, 2]), float(o.x.pos[0, 2] - st.x.pos[0, 2])
             dt = float(s.opt.timestep)
             gdt = -9.81 * dt if ob.meta.get('grav') else 0.0
             info = {'pipeline': pname, 'xml': xa, 'depth': dd, 'v': vv, 'elasticity': ee, 'vz_after': vz, 'dz': dz}
+            info['xy'] = [mx_, my_]
             if ob.name.startswith('push-only') and vv == 0.0 and (vz < gdt - 1e-7 or dz < gdt * dt - 1e-9):
+              return True, info
+            if ob.name.startswith('resting') and vv == 0.0 and dz <= 0:
               return True, info
             if ob.name.startswith('restitution') and vv <= -0.1:
               erp = float(s.baumgarte_erp)
@@ -226,21 +306,54 @@ def run(ck, a):
                 return True, info
       return False, {'why': 'no violating (depth, v, e) found on the grid'}
     sa, sb = mjcf.loads(xa), mjcf.loads(xb)
+    if ob.meta.get('unit'):
+      lo_, hi_ = np.asarray(sa.dof.limit[0]), np.asarray(sa.dof.limit[1])
+      for trial in range(6):
+        q = np.array(sa.init_q)
+        qo, do = 0, 0
+        for t_ in sa.link_types:
+          if t_ == 'f':
+            q[qo:qo + 3] += r.uniform(-0.5, 0.5, 3)
+            w_ = r.randn(4)
+            q[qo + 3:qo + 7] = w_ / np.linalg.norm(w_)
+            qo, do = qo + 7, do + 6
+          else:
+            for k_ in range(int(t_)):
+              q[qo + k_] = r.uniform(lo_[do + k_] + 0.05, hi_[do + k_] - 0.05)
+            qo, do = qo + int(t_), do + int(t_)
+        qd = r.uniform(-0.2, 0.2, sa.qd_size())
+        oa = mod.step(sa, mod.init(sa, jp.array(q), jp.array(qd)), jp.zeros(sa.act_size()))
+        ob2 = mod.step(sb, mod.init(sb, jp.array(q), jp.array(qd)), jp.zeros(sb.act_size()))
+        inside = bool(np.all(np.asarray(oa.q)[np.asarray(sa.q_idx('123'))] > lo_[np.asarray(sa.qd_idx('123'))]) and np.all(np.asarray(oa.q)[np.asarray(sa.q_idx('123'))] < hi_[np.asarray(sa.qd_idx('123'))]))
+        err = max(float(jp.abs(oa.q - ob2.q).max()), float(jp.abs(oa.qd - ob2.qd).max()))
+        if inside and err > 1e-9:
+          return True, {'pipeline': pname, 'xml_with_limits': xa, 'xml_without_limits': xb, 'q': q.tolist(), 'qd': qd.tolist(), 'max_output_difference': err}
+      return False, {'why': 'no difference found on sampled states strictly inside the ranges'}
     for trial in range(6):
       q = np.array(sa.init_q)
       q[3:7] = r.randn(4)
       q[3:7] /= np.linalg.norm(q[3:7])
       q[7:] = r.uniform(-0.6, 0.6, len(q) - 7)
       qd = r.uniform(-1, 1, sa.qd_size())
+      if qb_ is not None and trial < 4:
+        # the encoded configuration itself (3 cm above the ground), approaching the ground at up to 3 m/s
+        q = np.array(qb_)
+        qd[2] = -r.uniform(0.5, 3.0) if trial < 3 else qd[2]
       act = jp.array(r.uniform(-1, 1, sa.act_size()))
-      oa = mod.step(sa, mod.init(sa, jp.array(q), jp.array(qd)), act)
+      sta = mod.init(sa, jp.array(q), jp.array(qd))
+      oa = mod.step(sa, sta, act)
       ob2 = mod.step(sb, mod.init(sb, jp.array(q), jp.array(qd)), act)
+      if ob.name.startswith('inert-contacts'):
+        # precondition of the clause: nothing touches, before and after the step
+        c0_, c1_ = bcontact.get(sa, sta.x), bcontact.get(sa, oa.x)
+        if c0_ is not None and (float(c0_.dist.min()) <= 0 or float(c1_.dist.min()) <= 0):
+          continue
       err = max(float(jp.abs(oa.x.pos - ob2.x.pos).max()), float(jp.abs(oa.x.rot - ob2.x.rot).max()), float(jp.abs(oa.xd.vel - ob2.xd.vel).max()), float(jp.abs(oa.qd - ob2.qd).max()))
       nrm = max(float(jp.abs(jp.sum(oa.x.rot ** 2, axis=1) - 1).max()), float(jp.abs(jp.sum(ob2.x.rot ** 2, axis=1) - 1).max()))
       if (ob.name.startswith('inert') and err > 1e-9) or (ob.name.startswith('unit') and nrm > 1e-9):
         return True, {'pipeline': pname, 'xml_A': xa, 'xml_B': xb, 'q': q.tolist(), 'qd': qd.tolist(), 'act': np.asarray(act).tolist(), 'max_output_difference': err, 'max_norm_defect': nrm}
     return False, {'why': 'no difference found on sampled states'}
-  for p in ('inert', 'unit', 'push', 'restitution'):
+  for p in ('inert', 'unit', 'push', 'restitution', 'resting'):
     ck.replayers[p] = rep
   ck.discharge()
   # concrete differential side-check (NOT solver-decided, reported separately): where the solver could not decide an extended inert obligation
